@@ -31,7 +31,7 @@ def run(tier):
     json.dump(table[0], open(tf, "w"))
     lmax, nseeds = (300, 6) if thorough else (72, 2)
     nproc = min(14, NCPU)
-    for cfg in ["stable"] + (["simd"] if thorough else []):
+    for cfg in ["stable", RELEASE] + (["simd"] if thorough else []):
         reps = parallel(cfg, lambda o, k, n: ["sign", tf, o, ck.seed, lmax if cfg == "stable" else 40, nseeds if cfg == "stable" else 1, k, n], nproc, os.path.join(wd, "sign_" + cfg))
         for rep in reps:
             _merge(ck, rep, "" if cfg == "stable" else "[%s] " % cfg)
